@@ -127,9 +127,7 @@ class SimpleOperationExecutor:
             OSError: If some other type of OS error occurred.
         """
         norm_cased_filename = os.path.normcase(filename)
-        is_file_no_read = self._is_file_no_read(
-            norm_cased_filename, created_files)
-        if is_file_no_read is False:
+        if not self.is_file(filename, created_files):
             if self.is_dir(filename, created_files):
                 raise IsADirectoryError(
                     'Cannot read a directory: {:s}'.format(filename))
